@@ -1471,17 +1471,20 @@ _adapter_hook(LB* self,
         return NULL;
 
     if (factory != Py_None) {
+        /* ``__self__`` can be computed (subclasses of ``super``): what
+           we get may be ours alone, so keep it until the factory is
+           done with it. */
+        PyObject* super_self = NULL;
         if (PyObject_TypeCheck(object, &PySuper_Type)) {
-            PyObject* self = PyObject_GetAttr(object, str__self__);
-            if (self == NULL) {
+            super_self = PyObject_GetAttr(object, str__self__);
+            if (super_self == NULL) {
                 Py_DECREF(factory);
                 return NULL;
             }
-            // Borrow the reference to self
-            Py_DECREF(self);
-            object = self;
+            object = super_self;
         }
         result = PyObject_CallFunctionObjArgs(factory, object, NULL);
+        Py_XDECREF(super_self);
         Py_DECREF(factory);
         if (result == NULL || result != Py_None)
             return result;
